@@ -30,7 +30,7 @@ def enc(v, top=True):
     raise TypeError(f"cannot encode {type(v)}")
 
 
-def main():
+def dump():
     out = {}
     from py_ecc.fields.field_properties import field_properties as fp
     out["fields"] = {}
@@ -79,7 +79,11 @@ def main():
     out["suites"] = d
     import py_ecc.secp256k1.secp256k1 as s
     out["secp256k1"] = {k: getattr(s, k) for k in ("P", "N", "A", "B", "Gx", "Gy")}
-    json.dump(out, sys.stdout)
+    return out
+
+
+def main():
+    json.dump(dump(), sys.stdout)
 
 
 if __name__ == "__main__":
